@@ -521,7 +521,9 @@ fn check_program(rep: &mut Report, drv: &mut Driver, prog: &Prog, args: &[Args],
         Ok(Some((i, real))) => {
             let bad = args[i];
             let what0 = describe(&spec[i], &real);
-            let small = shrink(drv, prog, ret, bad);
+            // many programs usually show the same defect: minimise the first few of a batch only
+            let small = if rep.impl_violations.len() < 4 { shrink(drv, prog, ret, bad) } else { prog.clone() };
+            let minimised = rep.impl_violations.len() < 4;
             let (ssrc, ssx) = (source(&small), sexp(&small));
             let sspec = spec_answers(drv, &ssx, &[bad]).map(|v| v[0].clone()).unwrap_or_default();
             let sreal = compile_guarded(&ssrc).ok().and_then(|r| r.ok()).and_then(|mut p| call_once(&mut p, ret, bad).ok()).unwrap_or_default();
@@ -531,7 +533,7 @@ fn check_program(rep: &mut Report, drv: &mut Driver, prog: &Prog, args: &[Args],
                 &violation_key(&small),
                 json!({
                     "src": ssrc, "sexp": ssx, "ret": ret.name(), "args": [bad.0, bad.1, bad.2],
-                    "spec": sspec, "real": sreal, "minimised": true,
+                    "spec": sspec, "real": sreal, "minimised": minimised,
                     "original": {"case": ident, "src": src, "spec": spec[i], "real": real, "difference": what0},
                 }),
             );
@@ -602,8 +604,203 @@ fn replay_one(rep: &mut Report, drv: &mut Driver, v: &Value) {
 /// (source, s-expression, return type, args)
 fn corpus() -> Vec<(String, Prog)> {
     let mut out: Vec<(String, Prog)> = corpus_clauses().into_iter().map(|(n, p)| (n.to_string(), p)).collect();
+    out.extend(corpus_implicit());
+    out.extend(corpus_bare());
     out.extend(corpus_records());
     out.extend(corpus_matches());
+    out
+}
+
+/// Class representatives for the host calls the compiler inserts IMPLICITLY: they happen at the
+/// point of the construct they belong to, interleaved left to right with everything else.
+///  * an f-string with k = 2 and k = 3 interpolated parts, every tuple of part kinds out of
+///    { a value of the host type `Tok` (its logging `to_string` is called for the part),
+///      an effectful call returning a primitive, a block with an effect } — 9 + 27 programs; the
+///    first `Tok` part is a variable (the `to_string` call is then the part's only event: the
+///    shape `f"{c} then {c.bump()}"`), later ones are calls of `tok`;
+///  * the same with a later part that reads the value through a method / leaves the function;
+///  * `==` / `!=` on two `Tok`s (the type's logging equality): operands with effects, as an
+///    operand of `&&`, as a call argument, next to an explicit `to_string`.
+fn corpus_implicit() -> Vec<(String, Prog)> {
+    use E::{And, Bin, Block, FStr, Host, If1, Int, Ret, Var};
+    let b = |e: E| Box::new(e);
+    let em = |k: i32, v: E| Host(H_EMIT, vec![Int(k), v]);
+    let tok = |k: i32, v: E| Host(H_TOK, vec![Int(k), v]);
+    let main = |ret: T, body: Blk| Prog { fns: vec![Fn_ { params: vec![0, 1, 2], ret, body }], var_tys: vec![T::I, T::I, T::B, T::K, T::S, T::K] };
+    let decl = || S::Let(3, tok(90, Var(0)));
+    let mut out = vec![];
+    let kinds = ["host value", "call", "block"];
+    for k in [2usize, 3] {
+        for code in 0..3usize.pow(k as u32) {
+            let ks: Vec<usize> = (0..k).map(|i| code / 3usize.pow(i as u32) % 3).collect();
+            let mut parts = vec![];
+            let mut seen_tok = false;
+            for (i, kind) in ks.iter().enumerate() {
+                let key = 10 * (i as i32 + 1);
+                if i > 0 {
+                    parts.push(Part::Str(["-", " then "][i - 1].to_string()));
+                }
+                parts.push(Part::Expr(match kind {
+                    0 if !seen_tok => {
+                        seen_tok = true;
+                        Var(3)
+                    }
+                    0 => tok(key, Var(1)),
+                    1 => em(key, Var(1)),
+                    _ => Block(Blk { stmts: vec![S::Do(Host(H_EMIT_U, vec![Int(key)]))], last: Some(b(Bin(Op::Add, b(Var(0)), b(Int(i as i32))))) }),
+                }));
+            }
+            out.push((
+                format!("f-string, {k} parts ({}): every part is converted (a host value: by a call of its to_string) before the next part runs", ks.iter().map(|x| kinds[*x]).collect::<Vec<_>>().join(", ")),
+                main(T::S, Blk { stmts: vec![decl()], last: Some(b(FStr(parts))) }),
+            ));
+        }
+    }
+    // a later part reads the host value through a method: `f"{x3} then {x3.peek(1)}"`
+    out.push((
+        "f-string: a host value, then a method call on the same value".to_string(),
+        main(T::S, Blk { stmts: vec![decl()], last: Some(b(FStr(vec![Part::Expr(Var(3)), Part::Str(" then ".into()), Part::Expr(Host(H_PEEK, vec![Var(3), Int(1)]))]))) }),
+    ));
+    // a later part assigns the variable an earlier part has shown
+    out.push((
+        "f-string: a later part assigns the host variable an earlier part has shown".to_string(),
+        main(
+            T::S,
+            Blk {
+                stmts: vec![decl()],
+                last: Some(b(FStr(vec![
+                    Part::Expr(Var(3)),
+                    Part::Expr(Block(Blk { stmts: vec![S::Do(E::Assign(3, b(tok(1, Var(1)))))], last: Some(b(em(2, Var(0)))) })),
+                    Part::Expr(Var(3)),
+                ]))),
+            },
+        ),
+    ));
+    // the second part may leave the function: the first part's `to_string` ran, the third part does not
+    out.push((
+        "f-string: the second part returns after the first part's to_string call".to_string(),
+        main(
+            T::I,
+            Blk {
+                stmts: vec![
+                    decl(),
+                    S::Let(
+                        4,
+                        FStr(vec![
+                            Part::Expr(Var(3)),
+                            Part::Expr(Block(Blk { stmts: vec![S::Do(If1(b(Var(2)), Blk { stmts: vec![S::Do(Ret(b(em(1, Int(5)))))], last: None }))], last: Some(b(em(2, Var(1)))) })),
+                            Part::Expr(tok(3, Var(1))),
+                        ]),
+                    ),
+                ],
+                last: Some(b(em(4, Int(0)))),
+            },
+        ),
+    ));
+    // explicit `to_string`, and string `+`
+    out.push((
+        "explicit to_string as the left operand of +".to_string(),
+        main(T::S, Blk { stmts: vec![decl()], last: Some(b(E::Concat(b(Host(H_TO_STRING, vec![Var(3)])), b(Host(H_EMIT_S, vec![Int(1), FStr(vec![Part::Expr(tok(2, Var(1)))])]))))) }),
+    ));
+    // the equality of the host type
+    for op in [Op::Eq, Op::Ne] {
+        let sym = op.sym();
+        out.push((
+            format!("tok(..) {sym} tok(..): operands left to right, then one call of the type's equality"),
+            main(T::B, Blk { stmts: vec![], last: Some(b(Bin(op, b(tok(1, Var(0))), b(tok(2, Var(1)))))) }),
+        ));
+        out.push((
+            format!("x {sym} {{ effect; tok(..) }}: the equality is called after the right operand's block"),
+            main(T::B, Blk { stmts: vec![decl()], last: Some(b(Bin(op, b(Var(3)), b(Block(Blk { stmts: vec![S::Do(Host(H_EMIT_U, vec![Int(1)]))], last: Some(b(tok(2, Var(1)))) }))))) }),
+        ));
+        out.push((
+            format!("emit_b(..) && (x {sym} tok(..)): the equality is called only when the left operand is true"),
+            main(T::B, Blk { stmts: vec![decl()], last: Some(b(And(b(Host(H_EMIT_B, vec![Int(1), Var(2)])), b(Bin(op, b(Var(3)), b(tok(2, Var(1)))))))) }),
+        ));
+        out.push((
+            format!("emit3-style arguments: (x {sym} tok(..)) as an argument is evaluated in its place"),
+            main(
+                T::I,
+                Blk {
+                    stmts: vec![decl(), S::Let(5, tok(7, Var(1)))],
+                    last: Some(b(Host(H_EMIT3, vec![Int(1), E::Ite(b(Bin(op, b(Var(3)), b(Var(5)))), Blk { stmts: vec![], last: Some(b(em(2, Int(1)))) }, Blk { stmts: vec![], last: Some(b(em(3, Int(0)))) }), em(4, Var(0))]))),
+                },
+            ),
+        ));
+    }
+    out
+}
+
+/// Class representatives for "a constructor component that is a BARE variable or path is read at
+/// its place": the component is a variable / a field path `x.f`, and a LATER component of the same
+/// constructor is a block that assigns that variable / that field / the whole record before it
+/// logs. Constructors: record literals (named, anonymous, two fields, generic), enum constructor,
+/// list literal, host-call arguments, a method's receiver, script-call arguments, f-string parts,
+/// operands of a binary operator.
+fn corpus_bare() -> Vec<(String, Prog)> {
+    use E::{Assign, Bin, Block, Call, Ctor, FStr, Field, Host, Int, List, Match, Record, Var};
+    let b = |e: E| Box::new(e);
+    let em = |k: i32, v: E| Host(H_EMIT, vec![Int(k), v]);
+    let last = |e: E| Blk { stmts: vec![], last: Some(Box::new(e)) };
+    // ids: 0 1 2 parameters, 3: a record `R`, 5: the constructed value, 6 7: binders, 8 9: the callee's parameters
+    let tys = |t5: T| vec![T::I, T::I, T::B, T::R, T::I, t5, T::I, T::I, T::I, T::I];
+    let mut out = vec![];
+    // (what, the bare component, the later component that assigns what the bare one names)
+    let bares: Vec<(&str, E, E)> = vec![
+        ("a variable", Var(0), Block(Blk { stmts: vec![S::Do(Assign(0, b(Int(100))))], last: Some(b(em(1, Var(0)))) })),
+        ("a field path; a later component assigns that field", Field(b(Var(3)), 0), Block(Blk { stmts: vec![S::Do(E::AssignF(3, 0, b(Int(100))))], last: Some(b(em(1, Field(b(Var(3)), 0)))) })),
+        (
+            "a field path; a later component assigns the whole record",
+            Field(b(Var(3)), 1),
+            Block(Blk { stmts: vec![S::Do(Assign(3, b(Record(RK_RA, vec![(2, Int(7)), (0, Int(8)), (1, Int(9))]))))], last: Some(b(em(1, Field(b(Var(3)), 1)))) }),
+        ),
+    ];
+    for (what, bare, later) in bares {
+        let start = || S::Let(3, Record(RK_R, vec![(0, Var(0)), (1, Var(1)), (2, Int(3))]));
+        let three = || vec![bare.clone(), later.clone(), bare.clone()];
+        let mut push = |name: &str, t5: T, stmts: Vec<S>, fin: E, helper: Option<Fn_>| {
+            let mut all = vec![start()];
+            all.extend(stmts);
+            let mainf = Fn_ { params: vec![0, 1, 2], ret: T::I, body: Blk { stmts: all, last: Some(Box::new(fin)) } };
+            let fns = match helper {
+                Some(h) => vec![h, mainf],
+                None => vec![mainf],
+            };
+            out.push((format!("{name}: a component is {what}"), Prog { fns, var_tys: tys(t5) }));
+        };
+        // record literals: the bare component is written first, whatever field it is for
+        for (ty, tname, n) in RECORDS.iter().copied() {
+            for anon in [false, true] {
+                let perm: Vec<usize> = if n == 3 { vec![1, 2, 0] } else { vec![1, 0] };
+                let fs: Vec<(usize, E)> = perm.iter().copied().zip(three()).collect();
+                let obs = if n == 3 {
+                    Bin(Op::Sub, b(Host(H_EMIT3, vec![Int(4), Field(b(Var(5)), 0), Field(b(Var(5)), 1)])), b(Field(b(Var(5)), 2)))
+                } else {
+                    Host(H_EMIT3, vec![Int(4), Field(b(Var(5)), 0), Field(b(Var(5)), 1)])
+                };
+                push(&format!("record literal {}{tname}", if anon { "(anonymous) of " } else { "" }), ty, vec![S::Let(5, Record(Rk { ty, anon }, fs))], obs, None);
+            }
+        }
+        push(
+            "enum constructor E.B(..)",
+            T::I,
+            vec![],
+            Match(b(Ctor(1, vec![bare.clone(), later.clone()])), false, vec![Arm { pat: Pat::Variant(1, vec![6, 7]), guard: None, body: last(Host(H_EMIT3, vec![Int(4), Var(6), Var(7)])) }, Arm { pat: Pat::Wild, guard: None, body: last(Int(0)) }]),
+            None,
+        );
+        push("list literal", T::L, vec![S::Let(5, Host(H_EMIT_L, vec![Int(4), List(three())]))], Int(0), None);
+        push("arguments of a host call", T::I, vec![], Host(H_EMIT3, vec![Int(4), bare.clone(), later.clone()]), None);
+        push("receiver of a method call", T::I, vec![], Host(H_MIX, vec![bare.clone(), Int(4), later.clone()]), None);
+        push(
+            "arguments of a script-function call",
+            T::I,
+            vec![],
+            Call(0, vec![bare.clone(), later.clone()]),
+            Some(Fn_ { params: vec![8, 9], ret: T::I, body: last(Host(H_EMIT3, vec![Int(4), Var(8), Var(9)])) }),
+        );
+        push("f-string parts", T::S, vec![S::Let(5, Host(H_EMIT_S, vec![Int(4), FStr(vec![Part::Expr(bare.clone()), Part::Str("-".into()), Part::Expr(later.clone()), Part::Str("-".into()), Part::Expr(bare.clone())])]))], Int(0), None);
+        push("operands of a binary operator", T::I, vec![], Bin(Op::Sub, b(bare.clone()), b(later.clone())), None);
+    }
     out
 }
 
@@ -672,10 +869,12 @@ fn corpus_matches() -> Vec<(String, Prog)> {
 }
 
 /// Class representatives for "the order in which something is WRITTEN is not the order in which
-/// its type declares it": a literal of `R` in each of the six orders of its three fields, with
-/// the type's name, anonymous under an annotation, anonymous on the right of an assignment, and
-/// anonymous with a type of its own; effects one level down (a later-written field assigns what
-/// an earlier-written one read; a field leaves the function).
+/// its type declares it": a literal of every record type — `R` (three fields), `P` (two),
+/// the generic `G[T]` (three) and `H[T]` (two) at `T = i32` — in EVERY order of its fields (six /
+/// two), with the type's name, anonymous under an annotation, anonymous on the right of an
+/// assignment, and (not for the generic ones) anonymous with a type of its own; effects one level
+/// down (a later-written field assigns what an earlier-written one read; a field leaves the
+/// function).
 fn corpus_records() -> Vec<(String, Prog)> {
     use E::{Assign, Bin, Block, Field, Host, If1, Int, Record, Ret, Var};
     let b = |e: E| Box::new(e);
@@ -687,71 +886,87 @@ fn corpus_records() -> Vec<(String, Prog)> {
     };
     // emit3(4, x3.b, x3.c) - x3.a: every field of the result is observed
     let observe = || Bin(Op::Sub, b(Host(H_EMIT3, vec![Int(4), Field(b(Var(3)), 0), Field(b(Var(3)), 1)])), b(Field(b(Var(3)), 2)));
-    let order = |perm: &[usize; 3]| perm.iter().map(|i| FIELDS[*i]).collect::<Vec<_>>().join(",");
+    // … of a record with two fields: emit3(4, x3.b, x3.c)
+    let observe2 = || Host(H_EMIT3, vec![Int(4), Field(b(Var(3)), 0), Field(b(Var(3)), 1)]);
+    let order = |perm: &[usize]| perm.iter().map(|i| FIELDS[*i]).collect::<Vec<_>>().join(",");
     let mut out = vec![];
-    for perm in PERMS.iter() {
-        let lit = |anon: bool| Record(anon, vec![(perm[0], em(1, Var(0))), (perm[1], em(2, Var(1))), (perm[2], em(3, Int(7)))]);
-        out.push((
-            format!("record literal R {{ {} }}: fields run as written", order(perm)),
-            main(Blk { stmts: vec![S::Let(3, lit(false))], last: Some(b(observe())) }, vec![T::R]),
-        ));
-        out.push((
-            format!("anonymous record literal {{ {} }} under `let x: R`: fields run as written", order(perm)),
-            main(Blk { stmts: vec![S::Let(3, lit(true))], last: Some(b(observe())) }, vec![T::R]),
-        ));
-        out.push((
-            format!("anonymous record literal {{ {} }} assigned to a variable of type R: fields run as written", order(perm)),
-            main(
-                Blk { stmts: vec![S::Let(3, Record(false, vec![(0, Int(0)), (1, Int(0)), (2, Int(0))])), S::Do(Assign(3, b(lit(true))))], last: Some(b(observe())) },
-                vec![T::R],
-            ),
-        ));
-        out.push((
-            format!("anonymous record literal {{ {} }} with a type of its own: fields run as written", order(perm)),
-            main(Blk { stmts: vec![], last: Some(b(Field(b(lit(true)), perm[1]))) }, vec![]),
-        ));
-        // a later-written field assigns the variable an earlier-written field has read, and a
-        // still later one reads it again
-        out.push((
-            format!("record literal R {{ {} }}: a later-written field assigns what an earlier one read", order(perm)),
-            main(
-                Blk {
-                    stmts: vec![S::Let(
-                        3,
-                        Record(false, vec![(perm[0], Var(0)), (perm[1], Block(Blk { stmts: vec![S::Do(Assign(0, b(Int(100))))], last: Some(b(em(1, Var(0)))) })), (perm[2], Bin(Op::Add, b(Var(0)), b(Var(1))))]),
-                    )],
-                    last: Some(b(observe())),
-                },
-                vec![T::R],
-            ),
-        ));
-        // the field written second may leave the function: the first ran, the third does not
-        out.push((
-            format!("record literal R {{ {} }}: the second field as written returns", order(perm)),
-            main(
-                Blk {
-                    stmts: vec![S::Let(
-                        3,
-                        Record(
-                            false,
-                            vec![
-                                (perm[0], em(1, Var(0))),
-                                (perm[1], Block(Blk { stmts: vec![S::Do(If1(b(Var(2)), Blk { stmts: vec![S::Do(Ret(b(em(2, Int(5)))))], last: None }))], last: Some(b(em(3, Var(1)))) })),
-                                (perm[2], em(5, Int(1))),
-                            ],
-                        ),
-                    )],
-                    last: Some(b(observe())),
-                },
-                vec![T::R],
-            ),
-        ));
+    for (ty, tname, n) in RECORDS.iter().copied() {
+        let named = Rk { ty, anon: false };
+        let anon = Rk { ty, anon: true };
+        let generic = matches!(ty, T::G | T::H);
+        let obs = || if n == 3 { observe() } else { observe2() };
+        // the expressions of a literal, in written order, cut to the number of fields
+        let cut = |perm: &[usize], es: Vec<E>| -> Vec<(usize, E)> { perm.iter().copied().zip(es).collect() };
+        for perm in perms_of(n) {
+            let perm = &perm[..];
+            let lit = |rk: Rk| Record(rk, cut(perm, vec![em(1, Var(0)), em(2, Var(1)), em(3, Int(7))]));
+            out.push((
+                format!("record literal {tname} {{ {} }}: fields run as written", order(perm)),
+                main(Blk { stmts: vec![S::Let(3, lit(named))], last: Some(b(obs())) }, vec![ty]),
+            ));
+            out.push((
+                format!("anonymous record literal {{ {} }} under `let x: {}`: fields run as written", order(perm), ty.roto()),
+                main(Blk { stmts: vec![S::Let(3, lit(anon))], last: Some(b(obs())) }, vec![ty]),
+            ));
+            out.push((
+                format!("anonymous record literal {{ {} }} assigned to a variable of type {}: fields run as written", order(perm), ty.roto()),
+                main(
+                    Blk { stmts: vec![S::Let(3, Record(named, (0..n).map(|i| (i, Int(0))).collect())), S::Do(Assign(3, b(lit(anon))))], last: Some(b(obs())) },
+                    vec![ty],
+                ),
+            ));
+            if !generic {
+                out.push((
+                    format!("anonymous record literal {{ {} }} with a type of its own: fields run as written", order(perm)),
+                    main(Blk { stmts: vec![], last: Some(b(Field(b(lit(anon)), perm[1]))) }, vec![]),
+                ));
+            }
+            // a later-written field assigns the variable an earlier-written field has read, and a
+            // still later one reads it again
+            out.push((
+                format!("record literal {tname} {{ {} }}: a later-written field assigns what an earlier one read", order(perm)),
+                main(
+                    Blk {
+                        stmts: vec![S::Let(
+                            3,
+                            Record(named, cut(perm, vec![Var(0), Block(Blk { stmts: vec![S::Do(Assign(0, b(Int(100))))], last: Some(b(em(1, Var(0)))) }), Bin(Op::Add, b(Var(0)), b(Var(1)))])),
+                        )],
+                        last: Some(b(obs())),
+                    },
+                    vec![ty],
+                ),
+            ));
+            // the field written second may leave the function: the first ran, the third does not
+            out.push((
+                format!("record literal {tname} {{ {} }}: the second field as written returns", order(perm)),
+                main(
+                    Blk {
+                        stmts: vec![S::Let(
+                            3,
+                            Record(
+                                named,
+                                cut(
+                                    perm,
+                                    vec![
+                                        em(1, Var(0)),
+                                        Block(Blk { stmts: vec![S::Do(If1(b(Var(2)), Blk { stmts: vec![S::Do(Ret(b(em(2, Int(5)))))], last: None }))], last: Some(b(em(3, Var(1)))) }),
+                                        em(5, Int(1)),
+                                    ],
+                                ),
+                            ),
+                        )],
+                        last: Some(b(obs())),
+                    },
+                    vec![ty],
+                ),
+            ));
+        }
     }
     // the target of a (compound) assignment is a field: `x3.f op= rhs` reads `x3.f` before `rhs`
     // runs, whether `rhs` assigns that field or the whole record, and stores into the record
     // `x3` holds afterwards; `x3.f = rhs` runs `rhs`, then stores
-    let start = || S::Let(3, Record(false, vec![(0, Var(0)), (1, Var(1)), (2, Int(3))]));
-    let other = || Record(true, vec![(2, Int(7)), (0, Int(8)), (1, Int(9))]);
+    let start = || S::Let(3, Record(RK_R, vec![(0, Var(0)), (1, Var(1)), (2, Int(3))]));
+    let other = || Record(RK_RA, vec![(2, Int(7)), (0, Int(8)), (1, Int(9))]);
     for f in 0..FIELDS.len() {
         let name = FIELDS[f];
         out.push((
@@ -827,7 +1042,7 @@ fn corpus_clauses() -> Vec<(&'static str, Prog)> {
             main(
                 T::I,
                 Blk {
-                    stmts: vec![S::Let(3, Record(false, vec![(0, em(1, Var(0))), (1, em(2, Var(1))), (2, em(6, Int(3)))])), S::Let(4, List(vec![em(3, Int(1)), em(4, Int(2)), em(5, Int(3))]))],
+                    stmts: vec![S::Let(3, Record(RK_R, vec![(0, em(1, Var(0))), (1, em(2, Var(1))), (2, em(6, Int(3)))])), S::Let(4, List(vec![em(3, Int(1)), em(4, Int(2)), em(5, Int(3))]))],
                     last: Some(b(Field(b(Var(3)), 1))),
                 },
                 vec![T::R, T::L],
@@ -971,7 +1186,7 @@ fn main() {
             if total_viol > rep.impl_violations.len() {
                 rep.notes.push(format!("{total_viol} violations found; the {} smallest with distinct keys are reported", rep.impl_violations.len()));
             }
-            rep.notes.push(format!("programs generated: {from}; argument tuples per program: 8; corpus programs: {} ({} one per clause of the statement, {} records: 6 written orders x 6 shapes of literal, 3 fields x 4 shapes of reading / assigning a field; {} matches: pattern variant x examinee variant, one named variant + `_`, guarded `_` between two variants)", corpus().len(), corpus_clauses().len(), corpus_records().len(), corpus_matches().len()));
+            rep.notes.push(format!("programs generated: {from}; argument tuples per program: 8; corpus programs: {} ({} one per clause of the statement; {} implicit host calls: f-strings with 2 and 3 parts x part kinds (host value with a logging to_string, effectful call, block with effect), the equality of the host type; {} bare variable / path as a constructor component assigned by a later component; {} records: every written order of R, P (two fields), G[T], H[T] x shapes of literal, 3 fields x 4 shapes of reading / assigning a field; {} matches: pattern variant x examinee variant, one named variant + `_`, guarded `_` between two variants)", corpus().len(), corpus_clauses().len(), corpus_implicit().len(), corpus_bare().len(), corpus_records().len(), corpus_matches().len()));
         }
         Some("worker") => {
             if std::env::var("C08_VERBOSE").is_err() {
